@@ -18,6 +18,8 @@ EDITS = {
  "H11_numopts_while": ("confuse.c", [("	for (n = 0; opts && opts[n].name; n++)\n		CFG_VERIF_LOOP(numopts)\n		/* do nothing */ ;", "	n = 0;\n	while (opts && opts[n].name)\n		CFG_VERIF_LOOP(numopts)\n		n++;")], ["C16"]),
  "H12_secidx_strtol": ("confuse.c", [("			if (endptr == title || *endptr != '\\0')\n				i = -1;", "			if (*endptr != '\\0' || endptr == title)\n				i = -1;")], ["C11"]),
  "H13_section_fields_order": ("confuse.c", [("			val->section->line = cfg->line;\n			val->section->errfunc = cfg->errfunc;\n			val->section->title", "			val->section->errfunc = cfg->errfunc;\n			val->section->line = cfg->line;\n			val->section->title")], ["C01", "C06"]),
+ "H14_print_other_stdio": ("confuse.c", [("	while (indent--)\n		fprintf(fp, \"  \");", "	while (indent--)\n		fputs(\"  \", fp);"), ("			else\n				fprintf(fp, \"%c\", *str);", "			else\n				fputc(*str, fp);")], ["C19", "C05"]),
+ "H15_leaf_hoist": ("confuse.c", [("	unsigned int i;\n\n	for (i = 0; cfg->opts && cfg->opts[i].name; i++) {\n		if (is_set(CFGF_NOCASE, cfg->flags)) {\n			if (strcasecmp(cfg->opts[i].name, name) == 0)", "	unsigned int i;\n	int nocase = is_set(CFGF_NOCASE, cfg->flags);\n\n	for (i = 0; cfg->opts && cfg->opts[i].name; i++) {\n		if (nocase) {\n			if (strcasecmp(cfg->opts[i].name, name) == 0)")], ["C11", "C12"]),
  "H7_searchpath_else": ("confuse.c", [("	if ((fullpath = cfg_searchpath(p->next, file)) != NULL)\n		return fullpath;", "	fullpath = cfg_searchpath(p->next, file);\n	if (fullpath)\n		return fullpath;")], ["C17"]),
 }
 names = sys.argv[1:] or list(EDITS)
